@@ -150,4 +150,246 @@ theorem matchSeg_idx (W : Char → Bool) (i : Int) (rest : Text) :
     · rename_i heq; simp at heq
     · rename_i h1 h2; exact absurd rfl (h1 _)
 
+theorem escQuote_noquote (s : Text) (h : '"' ∉ s) : escQuote s = s := by
+  induction s with
+  | nil => rfl
+  | cons c cs ih =>
+    have hc : c ≠ '"' := by intro e; exact h (by simp [e])
+    have hcs : '"' ∉ cs := by intro e; exact h (by simp [e])
+    simp [escQuote, hc, ih hcs]
+
+theorem isIdent_spec (W : Char → Bool) (hW : WordClass W) (s : Text) (h : isIdent W s = true) :
+    s ≠ [] ∧ ∀ c ∈ s, W c = true := by
+  cases s with
+  | nil => simp [isIdent] at h
+  | cons c cs =>
+    simp [isIdent] at h
+    refine ⟨by simp, ?_⟩
+    intro x hx
+    simp at hx
+    rcases hx with hx | hx
+    · subst hx; exact hW.ident _ h.1
+    · exact h.2 x hx
+
+theorem takeWhile_startOk (W : Char → Bool) (s rest : Text) (hs : ∀ c ∈ s, W c = true) (hr : startOk W rest) :
+    (s ++ rest).takeWhile W = s ∧ (s ++ rest).dropWhile W = rest := by
+  cases rest with
+  | nil => simp [takeWhile_all W s hs, dropWhile_all W s hs]
+  | cons c r => exact ⟨takeWhile_run W s c r hs hr, dropWhile_run W s c r hs hr⟩
+
+theorem matchSeg_name (W : Char → Bool) (hW : WordClass W) (s rest : Text) (hs : '"' ∉ s) (hr : startOk W rest) :
+    matchSeg W (seg W (.name s) ++ rest) = some (.name s, rest) := by
+  by_cases hid : isIdent W s = true
+  · obtain ⟨hne, hall⟩ := isIdent_spec W hW s hid
+    obtain ⟨ht, hd⟩ := takeWhile_startOk W s rest hall hr
+    have e : seg W (.name s) ++ rest = '.' :: (s ++ rest) := by simp [seg, hid]
+    rw [e]
+    simp [matchSeg, ht, hd, hne]
+  · have e : seg W (.name s) ++ rest = '.' :: '"' :: (s ++ '"' :: rest) := by
+      simp [seg, hid, escQuote_noquote s hs]
+    rw [e]
+    have hp : ∀ x ∈ s, (fun c : Char => c != '"') x = true := by
+      intro x hx; simp; intro e; exact hs (e ▸ hx)
+    have ht := takeWhile_run (fun c : Char => c != '"') s '"' rest hp (by simp)
+    have hd := dropWhile_run (fun c : Char => c != '"') s '"' rest hp (by simp)
+    simp [matchSeg, hW.quote, ht, hd]
+
+def Key.noQuote : Key → Prop
+  | .name s => '"' ∉ s
+  | .idx _ => True
+
+theorem matchSeg_seg (W : Char → Bool) (hW : WordClass W) (k : Key) (rest : Text)
+    (hk : k.noQuote) (hr : startOk W rest) :
+    matchSeg W (seg W k ++ rest) = some (k, rest) := by
+  cases k with
+  | idx i => exact matchSeg_idx W i rest
+  | name s => exact matchSeg_name W hW s rest hk hr
+
+theorem seg_head (W : Char → Bool) (hW : WordClass W) (k : Key) : ∃ c t, seg W k = c :: t ∧ W c = false := by
+  cases k with
+  | idx i => exact ⟨'[', _, rfl, hW.bracket⟩
+  | name s =>
+    by_cases hid : isIdent W s = true
+    · exact ⟨'.', s, by simp [seg, hid], hW.dot⟩
+    · exact ⟨'.', _, by simp [seg, hid]; rfl, hW.dot⟩
+
+theorem segs_startOk (W : Char → Bool) (hW : WordClass W) (ks : List Key) : startOk W (segs W ks) := by
+  cases ks with
+  | nil => simp [segs, startOk]
+  | cons k ks =>
+    obtain ⟨c, t, h, hc⟩ := seg_head W hW k
+    simp [segs, h, startOk, hc]
+
+/-- a key is expressible in the path text when it has no double quote -/
+def Key.pathSafe : Key → Bool
+  | .name s => !s.contains '"'
+  | .idx _ => true
+
+theorem parseSegs_segs (W : Char → Bool) (hW : WordClass W) (keys : List Key) (hk : ∀ k ∈ keys, k.pathSafe = true) :
+    ∀ f, (segs W keys).length ≤ f → parseSegs W f (segs W keys) = some keys := by
+  induction keys with
+  | nil => intro f _; cases f <;> simp [segs, parseSegs]
+  | cons k ks ih =>
+    intro f hf
+    obtain ⟨c, t, h, hc⟩ := seg_head W hW k
+    have hk1 : k.noQuote := by
+      have := hk k (by simp)
+      cases k with
+      | idx i => trivial
+      | name s => simpa [Key.pathSafe, Key.noQuote] using this
+    have hm := matchSeg_seg W hW k (segs W ks) hk1 (segs_startOk W hW ks)
+    have hlen : (segs W (k :: ks)).length = (t.length + 1) + (segs W ks).length := by
+      simp [segs, h]; omega
+    cases f with
+    | zero => omega
+    | succ f =>
+      have hrec := ih (fun k hk' => hk k (by simp [hk'])) f (by omega)
+      have e : segs W (k :: ks) = c :: (t ++ segs W ks) := by simp [segs, h]
+      rw [e, parseSegs]
+      have e2 : c :: (t ++ segs W ks) = seg W k ++ segs W ks := by simp [h]
+      rw [e2, hm]
+      simp [hrec]
+
+/-! ### shapes of `json.dumps` texts -/
+
+theorem escChar_ne_nil (c : Char) : escChar c ≠ [] := by
+  unfold escChar
+  repeat' split
+  all_goals simp
+
+theorem escStr_eq_nil (s : Text) : escStr s = [] ↔ s = [] := by
+  cases s with
+  | nil => simp [escStr]
+  | cons c cs => simp [escStr, escChar_ne_nil]
+
+theorem intText_ne_nil (i : Int) : intText i ≠ [] := by
+  unfold intText; split
+  · simp
+  · exact natDigits_ne_nil _
+
+theorem dumps_ne_nil (v : Json) : dumps v ≠ [] := by
+  cases v with
+  | null => simp [dumps]
+  | bool b => cases b <;> simp [dumps]
+  | int i => simp [dumps]; exact intText_ne_nil i
+  | fzero b => cases b <;> simp [dumps]
+  | float c r => simp [dumps]
+  | str s => simp [dumps, quoteStr]
+  | arr xs => simp [dumps]
+  | obj kvs => simp [dumps]
+
+theorem dumpsList_eq_nil (xs : List Json) : dumpsList xs = [] ↔ xs = [] := by
+  match xs with
+  | [] => simp [dumpsList]
+  | [x] => simp [dumpsList, dumps_ne_nil]
+  | x :: y :: r => simp [dumpsList, dumps_ne_nil]
+
+theorem dumpsKvs_eq_nil (kvs : List (Text × Json)) : dumpsKvs kvs = [] ↔ kvs = [] := by
+  match kvs with
+  | [] => simp [dumpsKvs]
+  | [(k, v)] => simp [dumpsKvs, quoteStr]
+  | (k, v) :: kv :: r => simp [dumpsKvs, quoteStr]
+
+/-- a text made of digits only that is one of the eight literals is `0` -/
+theorem digits_mem_lits (t : Text) (h : ∀ c ∈ t, isDigitC c = true) (hm : t ∈ baseLits ++ floatZeroLits) : t = ['0'] := by
+  simp [baseLits, floatZeroLits] at hm
+  rcases hm with hm | hm | hm | hm | hm | hm | hm | hm
+  all_goals first
+    | exact hm
+    | (subst hm; exfalso; revert h; decide)
+
+theorem intText_mem_lits (i : Int) : intText i ∈ baseLits ++ floatZeroLits ↔ i = 0 := by
+  constructor
+  · intro hm
+    by_cases hi : i < 0
+    · exfalso
+      simp [intText, hi, baseLits, floatZeroLits] at hm
+      have hd := natDigits_all_digit i.natAbs
+      rw [hm] at hd
+      exact absurd (hd '.' (by simp)) (by decide)
+    · simp [intText, hi] at hm
+      have := natDigits_eq_zero _ (digits_mem_lits _ (natDigits_all_digit _) (by simpa using hm))
+      omega
+  · intro h; subst h; simp [intText, natDigits_zero, baseLits]
+
+theorem intText_zero : intText 0 = ['0'] := by simp [intText, natDigits_zero]
+
+theorem intText_mem_base (i : Int) : intText i ∈ baseLits ↔ i = 0 := by
+  constructor
+  · intro h; exact (intText_mem_lits i).1 (by simp [h])
+  · intro h; subst h; simp [intText_zero, baseLits]
+
+theorem intText_not_mem_fz (i : Int) : intText i ∉ floatZeroLits := by
+  intro h
+  have h0 := (intText_mem_lits i).1 (by simp [h])
+  subst h0
+  rw [intText_zero] at h
+  revert h; decide
+
+/-- is the value one of the two float zeros -/
+def Json.isFloatZero : Json → Bool
+  | .fzero _ => true
+  | _ => false
+
+theorem floatTextOk_not_lit (t : Text) (h : floatTextOk t = true) : t ∉ baseLits ++ floatZeroLits := by
+  intro hm
+  simp [baseLits, floatZeroLits] at hm
+  rcases hm with hm | hm | hm | hm | hm | hm | hm | hm
+  all_goals (subst hm; revert h; decide)
+
+theorem dumps_mem_base (v : Json) (hv : v.topOk = true) : dumps v ∈ baseLits ↔ (pyTruthy v = false ∧ v.isFloatZero = false) := by
+  cases v with
+  | null => simp [dumps, baseLits, pyTruthy, Json.isFloatZero]
+  | bool b => cases b <;> simp [dumps, baseLits, pyTruthy, Json.isFloatZero]
+  | int i => simp [dumps, pyTruthy, Json.isFloatZero, intText_mem_base]
+  | fzero b => cases b <;> simp [dumps, baseLits, pyTruthy, Json.isFloatZero]
+  | float c r =>
+    have := floatTextOk_not_lit (c :: r) (by simpa [Json.topOk] using hv)
+    simp [dumps, pyTruthy, Json.isFloatZero]
+    intro h; exact this (by simp [h])
+  | str s =>
+    cases s with
+    | nil => simp [dumps, quoteStr, escStr, baseLits, pyTruthy, Json.isFloatZero]
+    | cons c cs =>
+      have := escChar_ne_nil c
+      simp [dumps, quoteStr, escStr, baseLits, pyTruthy, Json.isFloatZero]
+      intro h
+      cases he : escChar c with
+      | nil => exact this he
+      | cons a as => rw [he] at h; simp at h
+  | arr xs =>
+    cases xs with
+    | nil => simp [dumps, dumpsList, baseLits, pyTruthy, Json.isFloatZero]
+    | cons x r =>
+      have hne : dumpsList (x :: r) ≠ [] := by simp [dumpsList_eq_nil]
+      simp [dumps, baseLits, pyTruthy, Json.isFloatZero]
+      intro h
+      cases he : dumpsList (x :: r) with
+      | nil => exact hne he
+      | cons a as => rw [he] at h; simp at h
+  | obj kvs =>
+    cases kvs with
+    | nil => simp [dumps, dumpsKvs, baseLits, pyTruthy, Json.isFloatZero]
+    | cons x r =>
+      have hne : dumpsKvs (x :: r) ≠ [] := by simp [dumpsKvs_eq_nil]
+      simp [dumps, baseLits, pyTruthy, Json.isFloatZero]
+      intro h
+      cases he : dumpsKvs (x :: r) with
+      | nil => exact hne he
+      | cons a as => rw [he] at h; simp at h
+
+theorem dumps_mem_fz (v : Json) (hv : v.topOk = true) : dumps v ∈ floatZeroLits ↔ v.isFloatZero = true := by
+  cases v with
+  | null => simp [dumps, floatZeroLits, Json.isFloatZero]
+  | bool b => cases b <;> simp [dumps, floatZeroLits, Json.isFloatZero]
+  | int i => simp [dumps, Json.isFloatZero, intText_not_mem_fz]
+  | fzero b => cases b <;> simp [dumps, floatZeroLits, Json.isFloatZero]
+  | float c r =>
+    have := floatTextOk_not_lit (c :: r) (by simpa [Json.topOk] using hv)
+    simp [dumps, Json.isFloatZero]
+    intro h; exact this (by simp [h])
+  | str s => simp [dumps, quoteStr, floatZeroLits, Json.isFloatZero]
+  | arr xs => simp [dumps, floatZeroLits, Json.isFloatZero]
+  | obj kvs => simp [dumps, floatZeroLits, Json.isFloatZero]
+
 end PonyVerif.Model.JsonOps
